@@ -5,6 +5,8 @@
 //   c09_exact.cpp   stages inplace-exact, set-action   (integer alphabets, oracle = exact integer algebra)
 //   c09_rot.cpp     stage  rotations                    (angle alphabet, oracle = long double, 8 eps Sum|terms|)
 //   c09_frames.cpp  stage  frames                       (lattice directions / point triples)
+//   c09_scaled.cpp  stages frames-scaled, nextframe-general (operands x 2^k, exactly parallel non-lattice pairs; nextFrame from a general frame)
+//   c09_ext.cpp     stages aliased-arguments, rotations-mixed-base, rotations-big-angles
 // The oracles are written from the documentation of each function (the matrix written out by hand,
 // "send p to p+t", Rodrigues' formula, "rotate the z axis into targetDir", ...), never from the
 // library's expressions.
@@ -103,5 +105,7 @@ int main (int argc, char** argv)
     c09::run_exact ();
     c09::run_rotations ();
     c09::run_frames ();
+    c09::run_frames_scaled ();
+    c09::run_ext ();
     return vf::R ().finish ();
 }
